@@ -80,8 +80,15 @@ pub fn random_set(rng: &mut Rng, graph: &SymbolicAsyncGraph) -> (GraphColoredVer
             desc.push_str("unit");
             unit.clone()
         }
-        _ => tree(rng, graph, &vars, 3, &mut desc),
+        _ => {
+            // large models: keep the arguments simple (sub-spaces and small combinations of them)
+            let depth = if vars.len() > 14 { rng.range(0, 1) } else { 3 };
+            tree(rng, graph, &vars, depth, &mut desc)
+        }
     };
+    if vars.len() > 14 {
+        return (set.intersect(&unit), desc);
+    }
     // random colour cube
     let params = graph.symbolic_context().parameter_variables().clone();
     if !params.is_empty() && rng.coin() {
